@@ -201,10 +201,19 @@ type vOp struct {
 	hook        bool // link only: fire Resolve(name) from testHookBeforeFinalWrite (between verified copy and rename)
 	s           vScript
 	data        []byte // edit: the bytes written to the manifest file behind the cache's back
+	puts        []vOp  // session: the Chunker.Puts (start, stop, cd, s) on ONE chunker
+	complete    bool   // session: the puts tile the true content in order with good sources (generator bookkeeping)
 }
 
 func (o vOp) String() string {
 	switch o.kind {
+	case "session":
+		var b strings.Builder
+		fmt.Fprintf(&b, "session %s %d %d", vHexD(o.d), o.size, len(o.puts))
+		for _, q := range o.puts {
+			fmt.Fprintf(&b, " %d %d %s %s", q.start, q.stop, vHexD(q.cd), q.s)
+		}
+		return b.String()
 	case "putneg":
 		return fmt.Sprintf("putneg %s %s", vHexD(o.d), o.s)
 	case "edit":
@@ -276,6 +285,13 @@ func (p *vToks) op() vOp {
 		o.name = string(zzverif.Unhex(p.next()))
 	case "chunk":
 		o.d, o.size, o.start, o.stop, o.cd, o.s = vUnhexD(p.next()), p.int(), p.int(), p.int(), vUnhexD(p.next()), p.script()
+	case "session":
+		o.d, o.size = vUnhexD(p.next()), p.int()
+		for i, n := 0, int(p.int()); i < n; i++ {
+			q := vOp{kind: "chunk", d: o.d, size: o.size}
+			q.start, q.stop, q.cd, q.s = p.int(), p.int(), vUnhexD(p.next()), p.script()
+			o.puts = append(o.puts, q)
+		}
 	case "putneg":
 		o.d, o.size, o.s = vUnhexD(p.next()), -1, p.script()
 	case "edit":
@@ -355,6 +371,23 @@ func vExec(c *DiskCache, o vOp) (res string, dg *Digest) {
 			return vErrClass(err), nil
 		}
 		return "dig:" + vHexD(d), &d
+	case "session":
+		// ONE Chunker for all the Puts: the stat happens once, in Chunked; the file stays open across the calls
+		ck, err := c.Chunked(o.d, o.size)
+		if err != nil {
+			return vErrClass(err), nil
+		}
+		rs := []string{}
+		for _, q := range o.puts {
+			rs = append(rs, vErrClass(ck.Put(Chunk{Start: q.start, End: q.stop}, q.cd, newVReader(q.s))))
+		}
+		if ck.f != nil {
+			ck.Close()
+		}
+		if len(rs) == 0 {
+			return "none", nil
+		}
+		return strings.Join(rs, "+"), nil
 	case "chunk":
 		ck, err := c.Chunked(o.d, o.size)
 		if err != nil {
@@ -435,7 +468,7 @@ func vBlobOfPath(rel string) (Digest, bool) {
 func (h *vHist) confine(step int, o vOp, dg *Digest, before, after map[string]string) {
 	allowedBlob := ""
 	switch o.kind {
-	case "put", "chunk", "putneg":
+	case "put", "chunk", "putneg", "session":
 		allowedBlob = "blobs/sha256-" + vHexD(o.d)
 	case "import", "resolve":
 		if dg != nil {
@@ -463,6 +496,9 @@ func (h *vHist) confine(step int, o vOp, dg *Digest, before, after map[string]st
 	for _, p := range sorted {
 		if d, ok := vBlobOfPath(p); ok {
 			h.lastWriter[d] = o.kind
+			if o.kind == "session" {
+				h.lastWriter[d] = "chunk" // the same writer: Chunker.Put
+			}
 		}
 		ok := false
 		switch o.kind {
@@ -572,7 +608,21 @@ func vChunkExpect(before []byte, exists bool, o vOp) []byte {
 	if exists && int64(len(before)) == o.size {
 		return before
 	}
-	f := append([]byte(nil), before...)
+	if o.kind == "session" { // the stat above is the only one; then every Put is applied to the open file
+		f := before
+		for _, q := range o.puts {
+			f = vChunkApply(f, q)
+		}
+		if f == nil {
+			f = []byte{}
+		}
+		return f
+	}
+	return vChunkApply(before, o)
+}
+
+func vChunkApply(before []byte, o vOp) []byte {
+	f := append([]byte{}, before...)
 	n := o.stop - o.start + 1
 	var seen []byte
 	remaining := n
@@ -636,7 +686,7 @@ func (h *vHist) run(ops []vOp) (results []string, keys map[Digest]bool) {
 	for i, o := range ops {
 		var target *Digest
 		switch o.kind {
-		case "put", "get", "link", "chunk", "putneg":
+		case "put", "get", "link", "chunk", "putneg", "session":
 			d := o.d
 			target = &d
 			keys[d] = true
@@ -692,11 +742,19 @@ func (h *vHist) run(ops []vOp) (results []string, keys map[Digest]bool) {
 			}
 		}
 		h.out.Count("op_" + o.kind)
-		h.out.Count("res_" + o.kind + "_" + vResClass(res))
+		if o.kind == "session" {
+			cls := "all-ok"
+			if strings.Contains(res, "err:") {
+				cls = "some-refused"
+			}
+			h.out.Count("res_session_" + cls)
+		} else {
+			h.out.Count("res_" + o.kind + "_" + vResClass(res))
+		}
 		// which branch of the model this operation is in, judged from the driver's own observations taken before the
 		// call (the check fails closed when a branch the theorems talk about is never exercised)
 		switch o.kind {
-		case "put", "chunk":
+		case "put", "chunk", "session":
 			switch {
 			case beforeOK && int64(len(before)) == o.size:
 				h.out.Count("branch_" + o.kind + "_same_size_shortcut")
@@ -828,7 +886,7 @@ func (h *vHist) run(ops []vOp) (results []string, keys map[Digest]bool) {
 					h.acked[*dg] = true
 				}
 			}
-		case "chunk":
+		case "chunk", "session":
 			h.acked[o.d] = false
 			if !strings.HasPrefix(res, "panic:") {
 				h.out.Count("l2_chunk_twin_checked")
@@ -840,8 +898,15 @@ func (h *vHist) run(ops []vOp) (results []string, keys map[Digest]bool) {
 						i, res, o.start, o.stop, o.size, zzverif.Hex(before), zzverif.Hex(exp), zzverif.Hex(now)))
 				}
 			}
-			if res == "ok" {
+			if res == "ok" || (o.kind == "session" && len(o.puts) > 0 && !strings.Contains(res, "err:") && !strings.HasPrefix(res, "panic:")) {
 				h.noteStored(o.d, o.size)
+			}
+			// a session whose Puts tile the true content in order, each acknowledged, onto a file that was absent or
+			// shorter IS a successful store (Lean: session_tiling_complete): the blob must be retrievable
+			if o.kind == "session" && o.complete && !strings.Contains(res, "err:") && (!beforeOK || int64(len(before)) < o.size) {
+				h.out.Count("branch_session_complete_ok")
+				h.checkStored(i, "session", o.d, o.size)
+				h.acked[o.d] = o.size > 0
 			}
 		case "unlink":
 			delete(h.linked, h.linkKey(o.name))
@@ -1214,11 +1279,62 @@ func vGenHist(r *zzverif.Rng) []vOp {
 			if r.Chance(1, 10) {
 				cd = bogus
 			}
+			if r.Chance(1, 3) {
+				ops = append(ops, vGenSession(r, c, bogus))
+				continue
+			}
 			ops = append(ops, vOp{kind: "chunk", d: d, size: size, start: a, stop: b, cd: cd, data: c,
 				s: vMkScript(r, part, zzverif.Pick(r, []string{"exact", "exact", "exact", "exact1", "short", "long", "flip", "errk"}), true)})
 		}
 	}
 	return ops
+}
+
+// vGenSession: one Chunker, several Puts.  Half of the sessions tile the true content in order from good sources (a complete
+// chunked download); the others shuffle, drop, repeat or corrupt chunks, or reach past the declared size.
+func vGenSession(r *zzverif.Rng, c []byte, bogus Digest) vOp {
+	o := vOp{kind: "session", d: vDigestOf(c), size: int64(len(c)), data: c, complete: true}
+	var cuts []int
+	for off := 0; off < len(c); {
+		n := r.Range(1, len(c)-off)
+		if r.Chance(1, 2) && n > 4 {
+			n = r.Range(1, 4)
+		}
+		cuts = append(cuts, off)
+		off += n
+	}
+	for i, a := range cuts {
+		b := len(c) - 1
+		if i+1 < len(cuts) {
+			b = cuts[i+1] - 1
+		}
+		part := c[a : b+1]
+		o.puts = append(o.puts, vOp{kind: "chunk", d: o.d, size: o.size, start: int64(a), stop: int64(b), cd: vDigestOf(part),
+			s: vMkScript(r, part, zzverif.Pick(r, []string{"exact", "exact", "exact1"}), true)})
+	}
+	if r.Chance(1, 2) {
+		return o
+	}
+	o.complete = false
+	for n := r.Range(1, 3); n > 0 && len(o.puts) > 0; n-- {
+		i := r.Intn(len(o.puts))
+		switch r.Intn(5) {
+		case 0: // drop
+			o.puts = append(o.puts[:i], o.puts[i+1:]...)
+		case 1: // swap with another
+			j := r.Intn(len(o.puts))
+			o.puts[i], o.puts[j] = o.puts[j], o.puts[i]
+		case 2: // a faulty source
+			q := o.puts[i]
+			q.s = vMkScript(r, c[q.start:q.stop+1], zzverif.Pick(r, []string{"short", "long", "flip", "errk", "other"}), true)
+			o.puts[i] = q
+		case 3: // wrong chunk digest
+			o.puts[i].cd = bogus
+		default: // repeat
+			o.puts = append(o.puts, o.puts[i])
+		}
+	}
+	return o
 }
 
 // vNegSize: some negative int64 (the model does not distinguish them)
